@@ -18,6 +18,7 @@ minus the outer product of means. Partial: PT1/PT3, floating point.
 This file restates the theorems the property rests on (full statements; proofs are in PGProofs/).
 Generated once by harness/mkprops.py from harness/props_table.py + PGProperties/extra/C02.lean.in; committed as source.
 -/
+import PGProofs.Corollaries
 import PGProofs.Assembly
 import PGProofs.Glue
 import PGProofs.BridgeBC
@@ -29,6 +30,12 @@ set_option pp.fieldNotation.generalized false
 
 namespace PG.C02
 open PG
+
+/-- sfs.cov (symmetrised ordered second moments minus outer product of means) equals get_cov (centred, permutation-averaged moment) entry by entry -/
+theorem cov_routes_agree : ∀ {ρ : Type} [inst : Inhabited ρ] (n : ℕ) (idx : List ℕ) (r : ℕ → ρ) (raw : List ρ → ℚ) (mean : List ℚ), (∀ i ∈ idx, getR mean i = raw [r i]) → ∀ (i j : ℕ), i ≤ n → j ≤ n → i ∈ idx → j ∈ idx → covEntry n idx (fun i j ↦ raw [r i, r j]) mean i j = accumulateModel raw true true [r i, r j] := @PG.Corollaries.cov_routes_agree
+
+/-- and its diagonal is the variance -/
+theorem cov_diag_is_var : ∀ {ρ : Type} [inst : Inhabited ρ] (n : ℕ) (idx : List ℕ) (r : ℕ → ρ) (raw : List ρ → ℚ) (mean : List ℚ), (∀ i ∈ idx, getR mean i = raw [r i]) → ∀ i ≤ n, i ∈ idx → covEntry n idx (fun i j ↦ raw [r i, r j]) mean i i = raw [r i, r i] - raw [r i] ^ 2 ∧ accumulateModel raw true true [r i, r i] = raw [r i, r i] - raw [r i] ^ 2 := @PG.Corollaries.cov_routes_agree_diag
 
 /-- HEADLINE: every moment on the block-counting chain (SFS rewards included) equals the moment of the labelled coalescent on typed blocks -/
 theorem sfs_eq_labelled : type_of% @PG.Assembly.C02_sfs_eq_labelled := @PG.Assembly.C02_sfs_eq_labelled   -- (printed statement does not re-elaborate; see the source lemma)
@@ -74,6 +81,8 @@ theorem folded_reward : ∀ (n : ℕ) (s : State) (i : ℕ), Reward.eval n s (Re
 
 end PG.C02
 
+#print axioms PG.C02.cov_routes_agree
+#print axioms PG.C02.cov_diag_is_var
 #print axioms PG.C02.sfs_eq_labelled
 #print axioms PG.C02.sfs_eq_labelled_alpha
 #print axioms PG.C02.lumping_block
